@@ -165,6 +165,7 @@ def shadowSegs (tmp : Bool) (v : Var) : List Str :=
       semi ["dpa".toList, esc d, "UNSUP".toList],
       semi ["dpl".toList, esc d, "UNSUP".toList],
       semi ["seta".toList, esc (n ++ ['='] ++ indexedBody kvs), "UNSUP".toList],
+      (if hasX v.attrs then semi ["ex".toList, esc d, "UNSUP".toList] else semi ["ex".toList, "ABSENT".toList]),
       semi ["lp".toList, esc d, "UNSUP".toList] ]
 
 /-- the scope stack of a shadowing context, the listing view over it, and what is printed for `zzv` -/
